@@ -18,6 +18,7 @@ PUNCT = list(b'{}[]():,./=<>%*-+&|!;"$\\#\n x1_')
 def make_job(name, parts_fn):
     def path_fn(M):
         M.symvars = {}
+        models.ENV['assume_utf8'] = False          # arbitrary file contents: the read-error arm is part of the property
         src = S.text(M, parts_fn())
         S.stop_after_parse(M)
         obs = {'panic': None, 'viol': None, 'nq': 0}
